@@ -91,6 +91,8 @@ class Zsim:
         self.exe = exe
         self.extra_env = extra_env
         self.slow = None
+        self.own_tmp = tmpdir is None
+        os.makedirs(os.path.join(HERE, "build"), exist_ok=True)
         self.tmpdir = tmpdir or tempfile.mkdtemp(prefix="zsim-", dir=os.path.join(HERE, "build"))
         self.env = dict(os.environ)
         self.env["LC_ALL"] = "C"
@@ -134,6 +136,13 @@ class Zsim:
             except Exception:
                 self.proc.kill()
             self.proc = None
+            try:
+                self.errlog.close()
+            except Exception:
+                pass
+        if self.own_tmp and self.proc is None:
+            import shutil
+            shutil.rmtree(self.tmpdir, ignore_errors=True)
 
     def run(self, plan):
         """Execute one plan in a fresh child; returns Response."""
